@@ -120,6 +120,8 @@ def s_chain(draw, min_len=1, max_len=6, worm='maybe', locking=None, optional_dat
                 choices += ['worm', 'wheel'] if not want_worm or worm_done else ['worm', 'worm', 'wheel', 'wheel', 'worm']
             t = draw(st.sampled_from(choices))
             el = {'type': t, 'J': J, 'link': {'kind': 'joint'}}
+            if t == pt and t == 'spur' and draw(st.integers(0, 3)) == 0:
+                el['link']['first_mated'] = True
             if t in ('spur', 'helical', 'wheel'):
                 el['n_teeth'] = draw(st.integers(10, 80))
             if t == 'helical':
